@@ -20,7 +20,7 @@ class C18(BaseCheck):
   REQUIRED_ANCHORS = ANCHORS
   REQUIRED_CLASSES = ('counter', 'gauge', 'percentile:below-reservoir', 'percentile:above-reservoir',
                       'full-stack', 'percentile:busy-after-full', 'zero-increment', 'fractional-increment',
-                      'overlapping-measure', 'gauge:persistent-objects')
+                      'overlapping-measure', 'gauge:persistent-objects', 'percentile:second-aggregation')
   ASSUMPTIONS = ('percentile bounds allow 1e-9 relative slack for the linear interpolation',)
   QUICK_CASES = 720
   THOROUGH_CASES = 40000
@@ -211,28 +211,38 @@ class C18(BaseCheck):
         env.advance(1.0)
         s = the_src if same_object else Source(*pt)
         VarzReceiver.RecordPercentileSample(s, metric, rng.random() * 100 if stream_cls != 'negative' else -rng.random())
-    agg = VarzAggregator.Aggregate(VarzReceiver.VARZ_DATA, VarzReceiver.VARZ_METRICS)
-    series = VarzReceiver.VARZ_DATA.get(metric, {})
-    mine = [(k, v) for k, v in series.items() if k.to_tuple() == pt]
-    out.obligations += 1
-    if len(mine) != 1:
-      out.violate('series:split', 'percentile metric %s has %d series for one source after %d samples' % (
-        metric, len(mine), size), {'metric_kind': 'percentile'})
-    else:
-      data = list(mine[0][1].data)
-      lo, hi = min(data), max(data)
-      slack = 1e-9 * max(abs(lo), abs(hi), 1.0)
-      tot = agg[metric][(pt[1], pt[3])].total
-      pcts = tot[1:]
-      out.obligations += 2
-      if any(p < lo - slack or p > hi + slack for p in pcts):
-        out.violate('percentile:out-of-range', 'percentiles %r outside retained [%r, %r] (%s, %d samples)' % (
-          pcts, lo, hi, stream_cls, size), {'stream': stream_cls})
-      if any(b < a - slack for a, b in zip(pcts, pcts[1:])):
-        out.violate('percentile:decreasing', 'percentiles %r decrease (%s, %d samples)' % (pcts, stream_cls, size),
-                    {'stream': stream_cls})
-      if len(data) > 1000:
-        out.violate('percentile:reservoir', 'reservoir holds %d samples' % len(data), {})
+    def aggregate_and_judge(round_):
+      agg = VarzAggregator.Aggregate(VarzReceiver.VARZ_DATA, VarzReceiver.VARZ_METRICS)
+      series = VarzReceiver.VARZ_DATA.get(metric, {})
+      mine = [(k, v) for k, v in series.items() if k.to_tuple() == pt]
+      out.obligations += 1
+      if len(mine) != 1:
+        out.violate('series:split', 'percentile metric %s has %d series for one source after %d samples' % (
+          metric, len(mine), size), {'metric_kind': 'percentile'})
+      else:
+        data = list(mine[0][1].data)
+        lo, hi = min(data), max(data)
+        slack = 1e-9 * max(abs(lo), abs(hi), 1.0)
+        tot = agg[metric][(pt[1], pt[3])].total
+        pcts = tot[1:]
+        out.obligations += 2
+        if any(p < lo - slack or p > hi + slack for p in pcts):
+          out.violate('percentile:out-of-range', 'percentiles %r outside retained [%r, %r] (%s, %d samples, aggregation #%d)' % (
+            pcts, lo, hi, stream_cls, size, round_), {'stream': stream_cls, 'round': round_})
+        if any(b < a - slack for a, b in zip(pcts, pcts[1:])):
+          out.violate('percentile:decreasing', 'percentiles %r decrease (%s, %d samples)' % (pcts, stream_cls, size),
+                      {'stream': stream_cls, 'round': round_})
+        if len(data) > 1000:
+          out.violate('percentile:reservoir', 'reservoir holds %d samples' % len(data), {})
+    aggregate_and_judge(1)
+    if rng.random() < 0.5:
+      # the same live series is aggregated again after more samples were recorded within the
+      # same tick of the low-resolution clock (no virtual time passes), from a shifted distribution
+      classes.add('percentile:second-aggregation')
+      for _ in range(rng.choice([1, 50, 1200, 3000])):
+        s = the_src if same_object else Source(*pt)
+        VarzReceiver.RecordPercentileSample(s, metric, 1000.0 + rng.random() * 10)
+      aggregate_and_judge(2)
     # ---------------- full stack
     full = idx % 4 == 0
     if full:
